@@ -2135,6 +2135,71 @@ fn gen_view_case(rng: &mut Rng) -> (String, String) {
     (format!("C09 {} {}", op, show_phys(&p)), format!("type:view directed-view {} {} nt op:{}", tag, if off > 0 { "off>0" } else { "" }, op.split(' ').next().unwrap()))
 }
 
+/// Dictionary keys on the representation boundaries of the key type: dictionaries with 2^(w-1)±1
+/// and 2^w±1 values (longer than a narrow key type can address), probe keys -1 / MIN / 0 / largest
+/// valid / len-1 / len / MAX at a valid slot or hidden under a null slot, all 8 key types, through
+/// ArrayData::try_new / validate_full AND DictionaryArray::try_new (`big`: also the 16-bit boundaries)
+fn gen_dict_boundary_case(rng: &mut Rng, big: bool) -> (String, String) {
+    let kw = *rng.pick(&[1usize, 1, 1, 2, 2, 4, 8]);
+    let signed = rng.chance(2, 3);
+    let mut lens: Vec<usize> = vec![1, 2, 126, 127, 128, 129, 130, 255, 256, 257];
+    if big && kw >= 2 {
+        lens.extend_from_slice(&[32767, 32768, 32769, 65535, 65536, 65537]);
+    }
+    let m = if kw == 1 && rng.chance(2, 3) { *rng.pick(&[128usize, 129, 130, 255, 256, 257]) } else { *rng.pick(&lens) };
+    let bits = 8 * kw as u32;
+    let (tmin, tmax): (i128, i128) = if signed { (-(1i128 << (bits - 1)), (1i128 << (bits - 1)) - 1) } else { (0, (1i128 << bits) - 1) };
+    let max_valid = (m as i128 - 1).min(tmax);
+    let n = 1 + rng.usize(6);
+    let off = if rng.chance(1, 4) { 1 + rng.usize(2) } else { 0 };
+    let total = n + off;
+    let mut keys = vec![];
+    for _ in 0..total {
+        let k = if rng.bool() { max_valid } else { rng.usize((max_valid + 1).min(1 << 20) as usize) as i128 };
+        put_int(k as i64, kw, &mut keys);
+    }
+    let (probe, pname): (i128, &str) = match rng.below(10) {
+        0 | 8 => (-1, "minus1"),
+        1 | 9 => (tmin, "min"),
+        2 => (0, "zero"),
+        3 => (max_valid, "max-valid"),
+        4 => (m as i128 - 1, "len-1"),
+        5 => (m as i128, "len"),
+        6 => (tmax, "max"),
+        _ => (m as i128 + 1, "len+1"),
+    };
+    // the probe must be representable in the key type (two's complement truncation otherwise changes it)
+    let probe = if probe < tmin || probe > tmax { tmax } else { probe };
+    let j = off + rng.usize(n);
+    set_int(&mut keys, j, kw, probe as i64);
+    let hidden = rng.chance(1, 4);
+    let nulls = if hidden || rng.chance(1, 4) {
+        let mut b = vec![0xffu8; (total + 7) / 8];
+        if hidden { b[j / 8] &= !(1 << (j % 8)); }
+        Some(b)
+    } else {
+        None
+    };
+    let in_range = probe >= 0 && probe < m as i128;
+    let vals = Phys { ty: Ty::Prim(1), len: m, offset: 0, nulls: None, nc: None, bufs: vec![vec![0x5a; m]], kids: vec![] };
+    let mut p = Phys { ty: Ty::Dict(kw, signed, Box::new(Ty::Prim(1))), len: n, offset: off, nulls, nc: None, bufs: vec![keys], kids: vec![vals] };
+    let rel = if m as i128 - 1 > tmax { "dict-exceeds-key-range" } else if m as i128 - 1 == tmax { "dict-fills-key-range" } else { "dict-within-key-range" };
+    let tags = format!(
+        "dictb key:{}{} dictlen:{} probe:{} {} {} {} nt",
+        if signed { "i" } else { "u" }, bits, m, pname, rel,
+        if hidden { "probe-hidden valid" } else if in_range { "probe-valid valid" } else { "probe-out-of-range" },
+        if off > 0 { "off>0" } else { "" }
+    );
+    match rng.below(3) {
+        0 if off == 0 => {
+            p.len = p.bufs[0].len() / kw;
+            (format!("C09 typed dict {}", show_phys(&p)), format!("op:typed kind:dict {}", tags))
+        }
+        1 => (format!("C09 full {}", show_phys(&p)), format!("op:full type:dict {}", tags)),
+        _ => (format!("C09 trynew {}", show_phys(&p)), format!("op:trynew type:dict {}", tags)),
+    }
+}
+
 /// list-view offsets + sizes, one defect at a chosen index class
 fn gen_lview_case(rng: &mut Rng) -> (String, String) {
     let w = if rng.chance(1, 3) { 8 } else { 4 };
@@ -2208,7 +2273,7 @@ fn gen_case(rng: &mut Rng) -> (String, String) {
         1 | 2 => gen_batch_case(rng),
         3..=6 => gen_typed_case(rng),
         7..=9 => gen_utf8_case(rng),
-        10..=12 => match rng.below(12) { 0 => gen_fromlens_case(rng), 1 | 2 => gen_lview_case(rng), 3 | 4 => gen_ffi_case(rng), _ => gen_block_case(rng) },
+        10..=12 => match rng.below(12) { 0 => gen_fromlens_case(rng), 1 | 2 => gen_lview_case(rng), 3 | 4 => gen_ffi_case(rng), 5 | 6 => gen_dict_boundary_case(rng, false), _ => gen_block_case(rng) },
         _ => gen_layout_case(rng),
     }
 }
@@ -2268,7 +2333,8 @@ fn main() {
         let mut frng = Rng::new(0xC09_F1ED);
         let nfixed = n_cases(&args, 6000, 150000).min(6000) / 10;
         for i in 0..nfixed {
-            let (line, tags) = match i % 6 {
+            let (line, tags) = match i % 7 {
+                6 => gen_dict_boundary_case(&mut frng, args.tier == "thorough"),
                 0 | 1 => gen_block_case(&mut frng),
                 2 => gen_utf8_case(&mut frng),
                 3 => gen_nonnull_offset_case(&mut frng),
